@@ -385,7 +385,10 @@ class Filters:
             return self.safe_name(f"{prefix}_{name}", prefix, name_case, **kwargs)
 
         result = name_case(name, **kwargs)
-        if text.is_reserved(result):
+        if text.is_reserved(result) or (
+            result.startswith("_") and result.endswith("_")
+        ):
+            # Dunder and sunder names have a meaning for classes and enums
             return self.safe_name(f"{name}_{prefix}", prefix, name_case, **kwargs)
 
         return result
